@@ -114,7 +114,7 @@ TRecvRet == Step("recv_ret") /\ UNCHANGED <<scen, call, wires, hits, gone, joine
    ELSE UNCHANGED <<avars, owed>> /\ NoFlag
 TPanic == Step("panic") /\ UNCHANGED <<avars, scen, call, wires, svars>> /\ Flag("C03/panic")
 THarness == Step("harness_error") /\ UNCHANGED <<avars, scen, call, wires, svars>> /\ Flag("harness/script-error")
-Ignored == {"peer_part", "peer_bytes", "attach_call", "attach_pending", "released", "recv_call", "recv_pending", "recv_dropped", "send_pending", "send_dropped",
+Ignored == {"observed", "peer_part", "peer_bytes", "attach_call", "attach_pending", "released", "recv_call", "recv_pending", "recv_dropped", "send_pending", "send_dropped",
             "quiescent", "end", "expect_wire", "sub_call", "sub_ret"}
 TIgnore == l <= NRec /\ E.ev \in Ignored /\ l' = l + 1 /\ UNCHANGED <<avars, scen, call, wires, svars>> /\ NoFlag
 TNext == TReset \/ TAttachRet \/ TWrote \/ TCut \/ TPipe \/ TWire \/ TSendCall \/ TSendRet \/ TRecvRet \/ TPanic \/ THarness \/ TIgnore
